@@ -49,9 +49,13 @@ func New(config ...Config) fiber.Handler {
 
 			_ = c.Status(res.StatusCode)
 
-			for header, vals := range res.Headers {
-				// the recorded values replace what middleware in front of this one has set for this request
+			// the recorded values replace what middleware in front of this one has set for this request
+			// (first all of that goes, then the lines are added: Del does not keep the order of the lines that stay,
+			// it would shuffle the lines of the headers replayed before)
+			for header := range res.Headers {
 				c.RequestCtx().Response.Header.Del(header)
+			}
+			for header, vals := range res.Headers {
 				for _, val := range vals {
 					c.RequestCtx().Response.Header.Add(header, val)
 				}
